@@ -58,11 +58,16 @@ def run_case(case, dst):
     if case.get("extra_use") and case["extra_use"] not in new:
         new = case["extra_use"] + new
     open(path, "w").write(new)
+    saved = []
     for (f2, old2, new2) in case.get("more", []):
         p2 = os.path.join(dst, f2)
         s2 = open(p2).read()
         if s2.count(old2) != 1:
+            for (pp, ss) in reversed(saved):
+                open(pp, "w").write(ss)
+            open(path, "w").write(src)
             return dict(name=case["name"], ok=False, why="anchor text occurs %d times in %s (case out of date)" % (s2.count(old2), f2))
+        saved.append((p2, s2))
         open(p2, "w").write(s2.replace(old2, new2))
     t0 = time.time()
     try:
@@ -101,6 +106,8 @@ def run_case(case, dst):
                     case["rule"], case["expect"], [r["key"] for r in viol][:4])
         return out
     finally:
+        for (pp, ss) in reversed(saved):
+            open(pp, "w").write(ss)
         open(path, "w").write(src)
 
 
